@@ -1,4 +1,4 @@
-import Rbacx.Proofs.RedactLog
+import Rbacx.Proofs.RedactSpec
 /-
   C19 — Audit redaction, sampling, size bound.
 
@@ -128,6 +128,37 @@ theorem c19_no_leak_specs_at_state (P : PyVal → Bool) (env : PyVal) (pre post 
       rw [honly] at this; exact absurd this (by simp)
     · rw [hpost w hw] at h'; exact absurd h' (by simp)
 
+/-- the whole write list, **judged on the input env alone**: a secret that sits only under a configured path of
+    plain keys / non-negative indices (`stablePath`) is absent from the final record, whatever the other
+    configured paths are and wherever in the list it stands.
+    (For a path with a *negative* index this is false, and rightly so: `items[-1]` denotes a different element
+    once an earlier write `items[3].x` has grown the list – use `c19_no_leak_specs_at_state` there.) -/
+theorem c19_no_leak_specs (P : PyVal → Bool) (kvs : List (String × PyVal)) (ws : List (String × PyVal))
+    (path : String) (ph : PyVal) (hmem : (path, ph) ∈ ws) (hst : stablePath path = true)
+    (hclean : ∀ w ∈ ws, anyLeaf P w.2 = false)
+    (honly : leakOutsidePath P (.dict kvs) path = false) :
+    anyLeaf P (applyWrites (.dict kvs) ws) = false :=
+  anyLeaf_applyWrites_stable P kvs ws path ph hmem hst hclean honly
+
+/-- a landed placeholder survives every later write along a (syntactically) disjoint path -/
+theorem c19_placeholder_specs (env : PyVal) (pre post : List (String × PyVal)) (path : String) (ph : PyVal)
+    (hl : landsPath (applyWrites env pre) path = true)
+    (hdis : ∀ w ∈ post, disjointPaths path w.1 = true) :
+    getByPath (applyWrites env (pre ++ (path, ph) :: post)) path = some ph := by
+  rw [applyWrites_append, applyWrites_cons]
+  exact getByPath_applyWrites_disjoint path ph post _ hdis (c19_placeholder_at_path _ _ _ hl)
+
+/-- the spec predicates the driver evaluates on the implementation's redacted env hold of the model's own
+    output, for every env, every spec list that does not raise, every list of secrets -/
+theorem c19_spec_redaction_sound (env : PyVal) (specs : List PyVal) (ws : List (String × PyVal))
+    (secrets : List String) (h : allWrites specs = some ws) :
+    specNoLeak env ws secrets (applyObligations env specs) = true ∧
+      specPlaceholder env ws (applyObligations env specs) = true := by
+  have : applyObligations env specs = applyWrites env ws := by
+    simp [applyObligations, applySpecs_of_allWrites specs ws env h]
+  rw [this]
+  exact ⟨specNoLeak_model env ws secrets, specPlaceholder_model ws env⟩
+
 /-! ### the caller's object
 
   `c19_caller_untouched` is definitional in a pure model: `applyObligationsIO` returns the caller's object
@@ -233,6 +264,43 @@ theorem c19_size_unbounded (cfg : LogCfg) (js : PyVal → Option Nat) (payload :
   obtain ⟨h2, h1⟩ := c19_redaction_total_logger cfg payload hwf
   simp only [log, hkeep, Bool.false_eq_true, if_false, h2, hb, h1]
 
+/-- the logger-side spec predicates hold of the model's own output (the size predicate: when the redacted env is
+    not itself shaped like a truncation marker) -/
+theorem c19_spec_logger_sound (cfg : LogCfg) (js : PyVal → Option Nat) (payload : PyVal) (draw : FNum) :
+    specSampling cfg payload draw (log cfg js payload draw).isSome = true ∧
+      specPriority cfg payload (redactStep cfg payload).1 = true ∧
+      ((effectiveSpecs cfg).all plainSpec = true →
+        isMarker (applyObligations (envObj payload) (effectiveSpecs cfg)) = none →
+        ∀ out, log cfg js payload draw = some out →
+          specSize cfg js (js (applyObligations (envObj payload) (effectiveSpecs cfg))) out.env = true) := by
+  refine ⟨specSampling_model cfg js payload draw, specPriority_model cfg payload, ?_⟩
+  intro hwf hnm out hout
+  obtain ⟨h2, h1⟩ := c19_redaction_total_logger cfg payload hwf
+  unfold specSize
+  cases hb : effBound cfg with
+  | none => rfl
+  | some b =>
+    simp only
+    have hkeep : shouldDrop cfg payload draw = false := by
+      have := log_isSome cfg js payload draw
+      rw [hout] at this; simpa using this.symm
+    simp only [log, hkeep, Bool.false_eq_true, if_false, h2, hb, h1] at hout
+    cases hn : js (applyObligations (envObj payload) (effectiveSpecs cfg)) with
+    | none =>
+      simp only [hn, Option.some.injEq] at hout
+      subst hout
+      simp [hnm, hn]
+    | some n =>
+      simp only [hn] at hout
+      by_cases hgt : (n : Int) > b
+      · simp only [hgt, if_true, Option.some.injEq] at hout
+        subst hout
+        simp [isMarker_truncMarker, hgt]
+      · simp only [hgt, if_false, Option.some.injEq] at hout
+        subst hout
+        simp only [hnm, hn]
+        simp; omega
+
 /-! ### non-vacuity: concrete instances satisfy the hypotheses (kernel-evaluated) -/
 
 /-- `{"user": {"email": "s3cr3t", "name": "bob"}, "items": [{"price": "tok-9"}, {"price": 3}], "n": 1}` -/
@@ -264,6 +332,21 @@ example : occurs "s3cr3t" (applyObligations exEnv exSpecs) = false ∧
 example : (applySpecs exEnv [.dict [("type", .str "mask_fields"), ("fields", .int 5)]]).2 = true := by
   decide +kernel
 example : (applySpecs exEnv [.str "mask_fields"]).2 = true := by decide +kernel
+
+-- the list-level statements: `user.email` is a stable path, `items[-2].price` is not (and is covered *at state*)
+example : stablePath "user.email" = true ∧
+    ((allWrites exSpecs).getD []).any (fun w => w.1 == "user.email") = true ∧
+    ((allWrites exSpecs).getD []).all (fun w => !occurs "s3cr3t" w.2) = true := by decide +kernel
+example : anyLeaf (holds "s3cr3t")
+    (applyWrites exEnv [("n.x", phMask), ("user.email", phRedact), ("user.name", phMask)]) = false :=
+  c19_no_leak_specs (holds "s3cr3t") _ _ "user.email" phRedact (by simp) (by decide +kernel)
+    (by intro w hw; simp at hw; rcases hw with rfl | rfl | rfl <;> decide +kernel) (by decide +kernel)
+example : disjointPaths "user.email" "items[0].price" = true ∧ disjointPaths "user.email" "user" = false ∧
+    disjointPaths "items[0].price" "items[1].price" = true ∧ disjointPaths "items[0]" "items[-1]" = false ∧
+    disjointPaths "a" "a[0]" = false := by decide +kernel
+example : coveredAt "tok-9" exEnv [("n.x", phMask), ("items[-2].price", phMask)] = true ∧
+    coveredStable "tok-9" exEnv [("n.x", phMask), ("items[-2].price", phMask)] = false ∧
+    placeholderClaims exEnv ((allWrites exSpecs).getD []) = 3 := by decide +kernel
 
 example : FNum.isDraw (.fin 0) := ⟨by decide, by simpa [FNum.lt, FNum.one] using unit_pos⟩
 example : FNum.isDraw (.fin (unit - 1)) :=
